@@ -24,17 +24,13 @@
    panics                                   Panic: `self.syslines[fo]` after the range map answered
                                             for a sysline that drop_sysline removed
 
-   Block storage: for a plain file read_block re-reads any block at any time (read_block_File seeks
-   and reads; after drop_block the main read_block only counts a "reread error"), so a miss calls the
-   pure searches of Model/Lines.v (`block bs f bo`) and a dropped line is simply searched again.
-   Blocks, blocks_read and the block LRU cache are not part of this model (C17 models what is
-   retained).  STREAMED containers (gz, bz2, xz, lz4, tar) are different and are NOT covered: there
-   read_block_FileGz & co. drop block b-1 as soon as block b is read and a later read_block(b-1)
-   returns Done (bo_at starts at the highest block read, the loop does not run), so find_line would
-   answer Done for a line that needs an earlier block; what keeps forward streaming correct there is
-   exactly the shortcuts A1a/A1b below (the preceding line is known, so the backward half of the
-   search is never run).  A proof of that needs the read trace of the search in the model
-   (missing; C05/C17 validate streamed files end to end).
+   Block storage: the BlockReader is part of the state (section BlockReader below: which blocks are stored, read,
+   cached; the container kinds).  For a plain file read_block re-reads any block at any time; a streamed container
+   can only go forward: .gz / .bz2 / .lz4 decode the next block and drop the block visited before (look-behind
+   drop), .xz is decompressed and sliced at open (a dropped block is gone), a tar member is read again completely on
+   every miss.  A block that is gone makes read_block answer Done and find_line answer Done (path PGone); what keeps
+   the stage driver correct on streamed files is that its sweep is forward: shortcuts A0 / A1a / A1b below (the
+   preceding line is known, so the backward half of the search is never run) - Proofs/CachesFwd*.v.
 
    Every operation returns the new state, the result and the path that answered. *)
 From S4.Base Require Import Bytes Chunk.
@@ -141,7 +137,12 @@ Definition e_drop_err := mkBC 0 0 0 0 0 0 0 0 0 1.
 Definition e_stored (n : N) := mkBC 0 0 0 0 0 1 0 n 0 0.         (* read_blocks_put, blocks_highest *)
 
 Record bstate : Type := mkB {
-  b_stream : bool;         (* is_streamed_file: gz / bz2 / lz4 *)
+  b_stream : bool;         (* is_streamed_file: gz / bz2 / lz4 / xz / tar *)
+  b_kind : N;              (* of a streamed file: 0 = a sequential decoder (gz, bz2, lz4); 1 = xz: BlockReader::new
+                              decompresses the WHOLE file and slices it into blocks (all stored, all in blocks_read;
+                              the decoder is exhausted: a block that was dropped cannot be read again: Done);
+                              2 = a tar member: read_block_FileTar reads and stores EVERY block of the member on each
+                              miss (a dropped block is read again with all the others) *)
   b_drop : bool;           (* drop_data *)
   b_blocks : list N;       (* keys of `blocks` *)
   b_read : list N;         (* blocks_read *)
@@ -149,32 +150,57 @@ Record bstate : Type := mkB {
   b_dec : N;               (* blocks decoded from the stream so far *)
   b_cnt : bcnt }.
 
-Definition b_init (stream : bool) : bstate := mkB stream true [] [] [] 0 bcnt0.
+Definition b_init (stream : bool) : bstate := mkB stream 0 true [] [] [] 0 bcnt0.
+
+(* blocks 0 .. n-1 *)
+Fixpoint seqN (n : nat) : list N := match n with O => [] | S k => seqN k ++ [N.of_nat k] end.
+
+(* a .xz file of filesz (uncompressed) bytes right after BlockReader::new: blocks 0 .. filesz / bs are stored (the
+   slicing loop runs `while blockoffset <= buffer.len() / blocksz`: one more, EMPTY, block when bs divides filesz) *)
+Definition b_init_xz (bs filesz : N) : bstate :=
+  if filesz =? 0 then mkB true 1 true [] [] [] 0 bcnt0
+  else let n := filesz / bs + 1 in
+       mkB true 1 true (seqN (N.to_nat n)) (seqN (N.to_nat n)) [] n (mkBC 0 0 0 0 0 n 0 n 0 0).
+Definition b_init_tar : bstate := mkB true 2 true [] [] [] 0 bcnt0.
+
+(* the streamed containers of a text log, and the BlockReader right after BlockReader::new *)
+Inductive ckind : Type :=
+| KSeq        (* .gz / .bz2 / .lz4: a sequential decoder *)
+| KXz         (* .xz: decompressed and sliced at open *)
+| KTar.       (* a member of a .tar *)
+Definition b_open (c : ckind) (bs filesz : N) : bstate :=
+  match c with KSeq => b_init true | KXz => b_init_xz bs filesz | KTar => b_init_tar end.
 
 Definition b_cnt_up (d : bcnt) (st : bstate) : bstate :=
-  mkB (b_stream st) (b_drop st) (b_blocks st) (b_read st) (b_lru st) (b_dec st) (bc_upd (b_cnt st) d).
+  mkB (b_stream st) (b_kind st) (b_drop st) (b_blocks st) (b_read st) (b_lru st) (b_dec st) (bc_upd (b_cnt st) d).
 
 (* store_block_in_LRU_cache *)
 Definition b_lru_put (bo : N) (st : bstate) : bstate :=
-  mkB (b_stream st) (b_drop st) (b_blocks st) (b_read st)
+  mkB (b_stream st) (b_kind st) (b_drop st) (b_blocks st) (b_read st)
       (firstn BLOCK_LRU_CAP (bo :: nrem bo (b_lru st))) (b_dec st) (bc_upd (b_cnt st) e_lru_put).
+
+(* store_block_in_storage alone *)
+Definition b_store_only (bo : N) (st : bstate) : bstate :=
+  let blocks := nadd bo (b_blocks st) in
+  mkB (b_stream st) (b_kind st) (b_drop st) blocks (nadd bo (b_read st)) (b_lru st) (b_dec st)
+      (bc_upd (b_cnt st) (e_stored (lenN blocks))).
 
 (* store_block_in_storage, then store_block_in_LRU_cache *)
 Definition b_store (bo : N) (st : bstate) : bstate :=
   let blocks := nadd bo (b_blocks st) in
-  b_lru_put bo (mkB (b_stream st) (b_drop st) blocks (nadd bo (b_read st)) (b_lru st) (b_dec st)
+  b_lru_put bo (mkB (b_stream st) (b_kind st) (b_drop st) blocks (nadd bo (b_read st)) (b_lru st) (b_dec st)
                     (bc_upd (b_cnt st) (e_stored (lenN blocks)))).
 
 (* BlockReader::disable_drop_data *)
 Definition b_disable_drop (st : bstate) : bstate :=
-  mkB (b_stream st) false (b_blocks st) (b_read st) (b_lru st) (b_dec st) (b_cnt st).
+  mkB (b_stream st) (b_kind st) false (b_blocks st) (b_read st) (b_lru st) (b_dec st) (b_cnt st).
 
 (* BlockReader::drop_block *)
 Definition b_drop_block (refd : N -> bool) (st : bstate) (bo : N) : bstate :=
   if negb (b_drop st) then st
   else
     let had := nmem bo (b_blocks st) || nmem bo (b_lru st) in
-    mkB (b_stream st) (b_drop st) (nrem bo (b_blocks st)) (b_read st) (nrem bo (b_lru st)) (b_dec st)
+    mkB (b_stream st) (b_kind st) (b_drop st) (nrem bo (b_blocks st)) (b_read st) (nrem bo (b_lru st)) (b_dec st)
         (if had then bc_upd (b_cnt st) (if refd bo then e_drop_err else e_drop_ok) else b_cnt st).
 
 Inductive bres : Type :=
@@ -196,9 +222,10 @@ Fixpoint b_stream_loop (fuel : nat) (refd : N -> bool) (st : bstate) (bo bo_at b
           else b_stream_loop k refd st bo (bo_at + 1) bo_at_old
         else
           let st := b_cnt_up e_miss st in
-          if negb (b_dec st =? bo_at) then (st, BWrong)
+          if b_kind st =? 1 then (st, BDone)          (* xz: xz_decompress on the exhausted reader: UnexpectedEof, break *)
+          else if negb (b_dec st =? bo_at) then (st, BWrong)
           else
-            let st := b_store bo_at (mkB (b_stream st) (b_drop st) (b_blocks st) (b_read st) (b_lru st)
+            let st := b_store bo_at (mkB (b_stream st) (b_kind st) (b_drop st) (b_blocks st) (b_read st) (b_lru st)
                                          (b_dec st + 1) (b_cnt st)) in
             let st := if bo_at_old <? bo_at then b_drop_block refd st bo_at_old else st in
             if bo_at =? bo then (st, BFound) else b_stream_loop k refd st bo (bo_at + 1) bo_at
@@ -210,20 +237,23 @@ Definition b_read_block (refd : N -> bool) (filesz last : N) (st : bstate) (bo :
   if last <? bo then (st, BDone)
   else
     if nmem bo (b_lru st) then
-      (mkB (b_stream st) (b_drop st) (b_blocks st) (b_read st) (bo :: nrem bo (b_lru st)) (b_dec st)
+      (mkB (b_stream st) (b_kind st) (b_drop st) (b_blocks st) (b_read st) (bo :: nrem bo (b_lru st)) (b_dec st)
            (bc_upd (b_cnt st) e_lru_hit), BFound)
     else
       let st := b_cnt_up e_lru_miss st in
       let go (st : bstate) : bstate * bres :=
         if filesz =? 0 then (st, BDone)
         else if b_stream st
-             then let m := nmax (b_read st) in b_stream_loop (S (S (N.to_nat (bo - m)))) refd st bo m m
+             then
+               if b_kind st =? 2
+               then (fold_left (fun st b => b_store_only b st) (seqN (S (N.to_nat last))) st, BFound)   (* read_block_FileTar *)
+               else let m := nmax (b_read st) in b_stream_loop (S (S (N.to_nat (bo - m)))) refd st bo m m
              else (b_store bo st, BFound) in
       if nmem bo (b_read st) then
         let st := b_cnt_up e_hit st in
         if nmem bo (b_blocks st) then (b_lru_put bo st, BFound)
         else
-          go (mkB (b_stream st) (b_drop st) (b_blocks st) (nrem bo (b_read st)) (b_lru st) (b_dec st)
+          go (mkB (b_stream st) (b_kind st) (b_drop st) (b_blocks st) (nrem bo (b_read st)) (b_lru st) (b_dec st)
                   (bc_upd (bc_upd (b_cnt st) e_reread) e_miss))
       else go (b_cnt_up e_miss st).
 
@@ -255,7 +285,8 @@ Record lr_state : Type := mkLR {
   l_blk : bstate;              (* the BlockReader *)
   l_ext : list sline }.        (* Line objects held by the caller (a SyslineReader): they keep blocks referenced *)
 
-Definition lr_init_k (stream : bool) : lr_state := mkLR [] [] [] true 0 lcnt0 (b_init stream) [].
+Definition lr_init_b (b : bstate) : lr_state := mkLR [] [] [] true 0 lcnt0 b [].
+Definition lr_init_k (stream : bool) : lr_state := lr_init_b (b_init stream).
 Definition lr_init : lr_state := lr_init_k false.
 
 Definition lc_hits_up c := mkLC (lc_processed c) (lc_highest c) (lc_hits c + 1) (lc_miss c) (lc_lru_hit c) (lc_lru_miss c) (lc_lru_put c) (lc_drop_ok c) (lc_drop_err c).
@@ -667,7 +698,8 @@ Record sr_state : Type := mkSR {
   s_nid : N;
   s_cnt : scnt }.
 
-Definition sr_init_k (stream : bool) : sr_state := mkSR (lr_init_k stream) [] [] [] true [] true 0 scnt0.
+Definition sr_init_b (b : bstate) : sr_state := mkSR (lr_init_b b) [] [] [] true [] true 0 scnt0.
+Definition sr_init_k (stream : bool) : sr_state := sr_init_b (b_init stream).
 Definition sr_init : sr_state := sr_init_k false.
 
 Definition sc_upd (c : scnt) (d : scnt) : scnt :=
@@ -1112,6 +1144,72 @@ Section Dated.
     | (st, Panic, _) => (st, Panic)
     end.
 
+  (* ------------------------------------------------ the datetime window on a STREAMED file
+     SyslineReader::find_sysline_at_datetime_filter_linear_search (the search of streamed files: find_sysline at
+     the offset, then at each returned offset while the message lies before the window),
+     find_sysline_between_datetime_filters, dt_after_or_before / dt_pass_filters (src/data/datetime.rs);
+     fa = dt_filter_after (-a), fb = dt_filter_before (-b), both inclusive; and exec_syslogprocessor's
+     stage 2 + 3 with them (the loop of c_stream with find_sysline_between_datetime_filters) *)
+  Definition dt_before (fa : option Z) (dt : Z) : bool :=        (* OccursBefore / BeforeRange *)
+    match fa with Some a => (dt <? a)%Z | None => false end.
+  Definition dt_after (fb : option Z) (dt : Z) : bool :=         (* AfterRange *)
+    match fb with Some b => (b <? dt)%Z | None => false end.
+
+  Fixpoint c_linear (fuel : nat) (bs : N) (f : file) (fa : option Z) (st : sr_state) (fo : N)
+    : sr_state * res (N * ssl) :=
+    match fuel with
+    | O => (st, OutOfFuel)
+    | S k =>
+        match c_find_sysline bs f st fo with
+        | (st, Found (n, s), _) =>
+            if dt_before fa (ss_dt s) then c_linear k bs f fa st n else (st, Found (n, s))
+        | (st, r, _) => (st, r)
+        end
+    end.
+
+  Definition c_find_between (bs : N) (f : file) (fa fb : option Z) (st : sr_state) (fo : N)
+    : sr_state * res (N * ssl) :=
+    match c_linear (S (length f)) bs f fa st fo with
+    | (st, Found (n, s)) =>
+        if dt_before fa (ss_dt s) then (st, Done)              (* BeforeRange ("unexpected"): Done *)
+        else if dt_after fb (ss_dt s) then (st, Done)           (* AfterRange: Done *)
+        else (st, Found (n, s))
+    | x => x
+    end.
+
+  Fixpoint c_stream_win_loop (fuel : nat) (bs : N) (f : file) (fa fb : option Z) (plan : list bool) (i : nat)
+                             (st : sr_state) (fo : N) (prev : option ssl) (acc : list ssl)
+    : sr_state * res (list ssl) :=
+    match fuel with
+    | O => (st, OutOfFuel)
+    | S k =>
+        match c_find_between bs f fa fb st fo with
+        | (st, Found (fo_next, s)) =>
+            if is_sysline_last bs f (ss_sysline s) then (st, Found (acc ++ [s]))
+            else
+              match prev with
+              | Some p =>
+                  let st := if plan_at plan i then c_drop_data_try bs st p else st in
+                  c_stream_win_loop k bs f fa fb plan (S i) st fo_next (Some s) (acc ++ [s])
+              | None => c_stream_win_loop k bs f fa fb plan i st fo_next (Some s) (acc ++ [s])
+              end
+        | (st, Done) => (st, Found acc)
+        | (st, OutOfFuel) => (st, OutOfFuel)
+        | (st, Panic) => (st, Panic)
+        end
+    end.
+
+  Definition c_stream_win (bs : N) (f : file) (fa fb : option Z) (plan : list bool) (st : sr_state)
+    : sr_state * res (list ssl) :=
+    match c_find_between bs f fa fb st 0 with
+    | (st, Found (fo_next, s)) =>
+        if is_sysline_last bs f (ss_sysline s) then (st, Found [s])
+        else c_stream_win_loop (S (length f)) bs f fa fb plan 0 st fo_next None [s]
+    | (st, Done) => (st, Found [])
+    | (st, OutOfFuel) => (st, OutOfFuel)
+    | (st, Panic) => (st, Panic)
+    end.
+
   (* ------------------------------------------------ operation sequences *)
 
   Inductive cop : Type :=
@@ -1135,7 +1233,8 @@ Section Dated.
   | RU.                     (* unit: enable / disable / drops *)
 
   Definition cstate := (lr_state * sr_state)%type.
-  Definition cinit_k (stream : bool) : cstate := (lr_init_k stream, sr_init_k stream).
+  Definition cinit_b (b : bstate) : cstate := (lr_init_b b, sr_init_b b).
+  Definition cinit_k (stream : bool) : cstate := cinit_b (b_init stream).
   Definition cinit : cstate := cinit_k false.
 
   Definition c_step (bs : N) (f : file) (st : cstate) (o : cop) : cstate * cres :=
